@@ -507,7 +507,7 @@ func (cs *ContractSet) parseFile(repo, path string) error {
 				return fail(l, "bad at clause")
 			}
 			spec := head[0]
-			if (spec == "call" || spec == "store") && len(head) >= 2 {
+			if (spec == "call" || spec == "store" || spec == "lookup") && len(head) >= 2 {
 				aa.Where = spec
 				spec = head[1]
 			} else if strings.HasPrefix(spec, "return") {
